@@ -51,15 +51,30 @@ def after_failed_call(case, obs):
             if "never-complete" in sig or "later-elements-lost" in sig]
 
 
+def well_formed(case):
+    """no element is emitted while the node's feed is detached (such an element goes nowhere by construction)"""
+    detached = False
+    for a in case["actions"]:
+        if a[0] == "detach":
+            detached = True
+        elif a[0] == "attach":
+            detached = False
+        elif detached and (a[0] in ("emit", "burst", "seq", "chain") or (a[0] == "mix" and any(sa[0] == "emit" for sa in a[2]))):
+            return False
+    return True
+
+
 def shrink(case, still):
     cur = json.loads(json.dumps(case))
     changed = True
     while changed:
         changed = False
         for i in range(len(cur["actions"]) - 1, -1, -1):
+            if cur["actions"][i][0] in ("adv", "attach"):
+                continue        # time advances (the clauses about loss rely on the drain) and re-attachments are kept
             c2 = json.loads(json.dumps(cur))
             del c2["actions"][i]
-            if not c2["actions"]:
+            if not c2["actions"] or not well_formed(c2):
                 continue
             # keep counter ids dense
             try:
